@@ -338,6 +338,9 @@ def d2_sort_table(chk, prog):
     rnd = random.Random(5)
     orders = [list(range(len(base))), list(range(len(base)))[::-1]] + [rnd.sample(range(len(base)), len(base)) for _ in range(6)]
     rank = {"chr1": 1, "chr2": 2, "chr10": 10, "chrX": 1000, "chrM": 2000}
+    # an input already in alphabetical chromosome order (chr1, chr10, chr2, chrM, chrX: `sort -k1,1 -k2,2n`) is not in natural order; one already in natural order stays
+    orders.append(sorted(range(len(base)), key=lambda i: base[i]))
+    orders.append(sorted(range(len(base)), key=lambda i: (rank[base[i][0]],) + base[i][1:]))
     for order in orders:
         W.reset()
         rows = [dict(chromosome=base[i][0], start=base[i][1], end=base[i][2], gene="-", rowid=k) for k, i in enumerate(order)]
@@ -417,6 +420,92 @@ def d1_segnames(chk, prog):
                 k += 1
         tb.cell(ok and got == want, dict(chrom_names=use_names, prefix=prefix, from_log10=log10, chromosomes=got, want=want))
     tb.done("parse_seg does not map chromosome IDs to names and then add the prefix (or loses the 1-based shift / sample split)")
+
+
+class _TScalar:
+    """one element of a typed column: a numpy scalar (np.int64 / np.float64) or a str"""
+    NUMPY_BASES = {"int": {"np.int64", "np.int_", "np.signedinteger", "np.integer", "np.number", "np.generic"},
+                   "float": {"np.float64", "np.double", "np.floating", "np.inexact", "np.number", "np.generic"}, "object": set()}
+    PY_BASES = {"int": set(), "float": {float}, "object": {str}}          # np.float64 subclasses float; np.int64 does not subclass int
+
+    def __init__(self, kind):
+        self.kind = kind
+
+    def abs_isinstance(self, tys):
+        for t in tys:
+            if isinstance(t, type) and t in self.PY_BASES[self.kind]:
+                return True
+            if isinstance(t, Module) and t.name in self.NUMPY_BASES[self.kind]:
+                return True
+            if not isinstance(t, (type, Module)):
+                raise Undecided(f"isinstance against {t!r}")
+        return False
+
+
+class _TCol:
+    def __init__(self, kind):
+        self.kind = kind
+        self.iat = self
+        self.iloc = self
+        self.values = self
+
+    def abs_getitem(self, it, k):
+        return _TScalar(self.kind)
+
+    @property
+    def dtype(self):
+        from ..absmodel import DType
+        return DType(self.kind)
+
+
+class _TFrame:
+    """a DataFrame known by its column dtypes only"""
+
+    def __init__(self, kinds, n):
+        self.kinds, self.n = dict(kinds), n
+        self.columns = list(kinds)
+
+    def abs_isinstance(self, tys):
+        return any(isinstance(t, Module) and t.name == "pd.DataFrame" for t in tys)
+
+    def abs_len(self):
+        return self.n
+
+    def abs_getitem(self, it, k):
+        if k not in self.kinds:
+            raise Raised("KeyError", k)
+        return _TCol(self.kinds[k])
+
+    def astype(self, mapping):
+        out = dict(self.kinds)
+        for c, t in (mapping.items() if isinstance(mapping, dict) else [(c, mapping) for c in out]):
+            t = getattr(t, "pytype", t)
+            out[c] = {int: "int", float: "float", str: "object", "int": "int", "float": "float", "str": "object"}.get(t)
+            if out[c] is None:
+                raise Undecided(f"astype({t!r})")
+        return _TFrame(out, self.n)
+
+
+def d2c_coordinate_dtypes(chk, prog):
+    """GenomicArray.__init__ on typed frames: whatever the parser inferred (positions in scientific notation parse as float, numeric chromosome names as int),
+    the array holds chromosome as str and start / end as integers -- the writers format integers as such and floats with 6 significant digits"""
+    fi = prog.fn("skgenome.gary.GenomicArray.__init__")
+    tb = Table(chk, "sorted-on-read", "GenomicArray(frame): column dtypes after construction (chromosome parsed as str / int, start and end parsed as int / float; 2 rows / 0 rows)", fi.loc(), fi.qn)
+    for ck, sk, ek, n in itertools.product(("object", "int"), ("int", "float"), ("int", "float"), (2, 0)):
+        W.reset()
+        model = Model()
+        model.ext["np.dtype"] = lambda it, t: __import__("cnvlint.absmodel", fromlist=["DType"]).DType({int: "int", float: "float", str: "object"}.get(getattr(t, "pytype", t), "object"))
+        it = Interp(prog, model)
+        g = make_ga("GenomicArray", [], {}, exact=True)
+        frame = _TFrame({"chromosome": ck, "start": sk, "end": ek, "gene": "object"}, n)
+        out = tb.guard(lambda: ("v", it.call_function(fi.mod, fi.node, [g, frame, None], {}, qn=fi.qn)), f"chromosome:{ck} start:{sk} end:{ek} rows:{n}")
+        if out is None:
+            continue
+        d = g.data
+        kinds = d.kinds if isinstance(d, _TFrame) else None
+        ok = kinds is not None and kinds.get("chromosome") == "object" and kinds.get("start") == "int" and kinds.get("end") == "int"
+        tb.cell(ok, dict(parsed=dict(chromosome=ck, start=sk, end=ek), rows=n, after=kinds))
+    tb.done("a coordinate column the parser inferred as float (or a numeric chromosome column) is not converted on construction: positions are then written with 6 significant digits and do not read back")
 
 
 def d2_read(chk, prog):
@@ -587,6 +676,7 @@ def run(chk):
     C20.d3(chk, prog)               # what export seg writes (ids, 1-based starts, enumerated chromosome ids): shared with C20-D3
     d2_sorted(chk, prog)
     d2_read(chk, prog)
+    d2c_coordinate_dtypes(chk, prog)
     d2_order(chk, prog)
     d3_sniff(chk, prog)
     d3b_roundtrip_detection(chk, prog)
